@@ -44,6 +44,15 @@ Section Dens.
     else let dp := mass ((d - none) / std) (d / std) in
          if neqb dp nzero then None else Some (nln dp).
   Definition nd_jump1 (succ : bool) (x : Z) (z : T) : Z := (x + (if succ then rnd_even z else floorceil z))%Z.
+  (** without successive jumps a draw that would propose the current integer (z = 0.0) is redrawn *)
+  Definition nd_ok (succ : bool) (x y : Z) : bool := succ || negb (y =? x)%Z.
+  Fixpoint nd_jump (succ : bool) (x : Z) (draws : list T) : option (Z * nat) :=
+    match draws with
+    | [] => None
+    | z :: r => let y := nd_jump1 succ x z in
+                if nd_ok succ x y then Some (y, 1%nat)
+                else match nd_jump succ x r with Some (v, n) => Some (v, S n) | None => None end
+    end.
 
   (** ** BoundedDiscrete (integer bounds lo <= hi) *)
   Definition bd_logpmf1 (succ : bool) (lo hi : Z) (std : T) (mu x : Z) : option T :=
@@ -62,7 +71,7 @@ Section Dens.
     match draws with
     | [] => None
     | z :: r => let y := nd_jump1 succ x z in
-                if (lo <=? y)%Z && (y <=? hi)%Z then Some (y, 1%nat)
+                if (lo <=? y)%Z && (y <=? hi)%Z && nd_ok succ x y then Some (y, 1%nat)
                 else match bd_jump1 succ lo hi x r with Some (v, n) => Some (v, S n) | None => None end
     end.
 
@@ -75,6 +84,18 @@ Section Dens.
     | y :: r => if nleb lo y && nleb y hi then Some (y, 1%nat)
                 else match bn_jump1 lo hi r with Some (v, n) => Some (v, S n) | None => None end
     end.
+
+  (** a bounded proposal asked to jump from outside its bounds refuses (ValueError) *)
+  Inductive jres (A : Type) := Refused | Exhausted | Jumped (a : A) (n : nat).
+  Arguments Refused {A}. Arguments Exhausted {A}. Arguments Jumped {A} a n.
+  Definition bn_jump_from (lo hi x : T) (draws : list T) : jres T :=
+    if nleb lo x && nleb x hi
+    then match bn_jump1 lo hi draws with Some (v, n) => Jumped v n | None => Exhausted end
+    else Refused.
+  Definition bd_jump_from (succ : bool) (lo hi x : Z) (draws : list T) : jres Z :=
+    if (lo <=? x)%Z && (x <=? hi)%Z
+    then match bd_jump1 succ lo hi x draws with Some (v, n) => Jumped v n | None => Exhausted end
+    else Refused.
 
   (** ** Normal (diagonal): scipy norm(0, std).logpdf(givenx - xi) *)
   Definition n_logpdf1 (std xi givenx : T) : T := lnphi ((givenx - xi) / std) - nln std.
@@ -144,3 +165,4 @@ Section Dens.
   Definition lnbirth_logpdf1 (mulog stdlog x : T) : option T :=
     if nleb x nzero then None else Some ((lnphi ((nln x - mulog) / stdlog) - nln stdlog) - nln x).
 End Dens.
+Arguments Refused {A}. Arguments Exhausted {A}. Arguments Jumped {A} a n.
